@@ -37,6 +37,7 @@ static tree_shape ts;
 static tree_state tcur;             /* what is on disk now */
 static char *t_path[T_MAXF];        /* real path of each potential file */
 static char *t_content[T_MAXF];
+static char **t_disk = t_content;   /* what t_put_* writes to disk (C06 writes poison instead and swaps inside the callback) */
 static tree_ent t_ent[T_MAXF][T_MAXKEYS]; static int t_nent[T_MAXF];
 static int t_kind[T_MAXF];          /* 0 group-less only, 1 sectioned only, 2 both */
 
@@ -114,14 +115,14 @@ static void t_put_main(int l, int st)
 {
   const char *p = t_path[t_id_main(l)];
   unlink(p);
-  if (st == M_REGULAR) mc_write_file(p, t_content[t_id_main(l)], strlen(t_content[t_id_main(l)]));
+  if (st == M_REGULAR) mc_write_file(p, t_disk[t_id_main(l)], strlen(t_disk[t_id_main(l)]));
   else if (st == M_EMPTY) mc_write_file(p, "", 0);
   else if (st == M_DEVNULL) { if (symlink("/dev/null", p) != 0) mc_die("symlink %s: %s", p, strerror(errno)); }
 }
 static void t_put_drop(int l, int c, int n, int present)
 {
   int id = t_id_drop(l, c, n);
-  if (present) mc_write_file(t_path[id], t_content[id], strlen(t_content[id]));
+  if (present) mc_write_file(t_path[id], t_disk[id], strlen(t_disk[id]));
   else unlink(t_path[id]);
 }
 
@@ -245,6 +246,26 @@ static int t_compare(const obs_cfg *o, const tree_kv *exp, int nexp, sbuf *why)
   return 0;
 }
 
+/* compare with the reference result of the tree; returns 0 equal, 1 different, 2 different but exactly the recorded
+ * defect class "the first list member is never masked" (KNOWN_FINDINGS.txt) */
+static int t_compare_result(const obs_cfg *o, const tree_state *st, const int *list, int nlist, sbuf *why)
+{
+  static tree_kv exp[T_MAXF * T_MAXKEYS / 4], exp2[T_MAXF * T_MAXKEYS / 4];
+  int applied[T_MAXF], applied2[T_MAXF];
+  int na = t_ref_applied(list, nlist, applied);
+  int nexp = t_ref_map(st, applied, na, exp, (int)(sizeof exp / sizeof exp[0]));
+  if (!t_compare(o, exp, nexp, why)) return 0;
+  if (nlist > 0 && !t_is_main(list[0]) && applied[0] != list[0]) {
+    sbuf why2 = {0};
+    t_first_exempt = 1; int na2 = t_ref_applied(list, nlist, applied2); t_first_exempt = 0;
+    int nexp2 = t_ref_map(st, applied2, na2, exp2, (int)(sizeof exp2 / sizeof exp2[0]));
+    int same = !t_compare(o, exp2, nexp2, &why2);
+    sb_free(&why2);
+    if (same) return 2;
+  }
+  return 1;
+}
+
 static void t_describe(sbuf *b, const tree_state *st)
 {
   static const char *mn[4] = { "-", "regular", "empty", "->/dev/null" };
@@ -258,6 +279,13 @@ static void t_describe(sbuf *b, const tree_state *st)
     }
     sb_puts(b, "} ");
   }
+}
+
+static int t_id_of_path(const char *path)
+{
+  char a[700], b[700]; t_collapse(path, a, sizeof a);
+  for (int id = 0; id < ts.nfiles; id++) { t_collapse(t_path[id], b, sizeof b); if (!strcmp(a, b)) return id; }
+  return -1;
 }
 
 /* recording callback */
